@@ -480,3 +480,62 @@ func c28Verify(w *c28Wire, cfg *c28Config) c28Verdict {
 	}
 	return c28Verdict{Valid: true, Key: cp[0]}
 }
+
+// c28ResignMinimal rewrites a header-signed request so that only the headers SigV4 obliges a
+// client to sign stay signed (host, every x-amz-*, Content-MD5): a legal request of a minimal
+// signer, on which e.g. Content-Length can be altered without touching a signed header. The
+// signature is computed with the reference canonical request (normalised reading).
+func c28ResignMinimal(w *c28Wire) (*c28Wire, bool) {
+	auths := w.header("Authorization")
+	if len(auths) != 1 {
+		return nil, false
+	}
+	alg, rest, ok := strings.Cut(auths[0], " ")
+	if !ok || alg != "AWS4-HMAC-SHA256" {
+		return nil, false
+	}
+	fields := map[string]string{}
+	for _, f := range strings.Split(rest, ",") {
+		k, v, _ := strings.Cut(strings.TrimSpace(f), "=")
+		fields[k] = v
+	}
+	cp := strings.Split(fields["Credential"], "/")
+	d := w.header("x-amz-date")
+	ph := w.header("x-amz-content-sha256")
+	if len(cp) != 5 || len(d) != 1 || len(ph) != 1 {
+		return nil, false
+	}
+	var names []string
+	for _, n := range strings.Split(fields["SignedHeaders"], ";") {
+		n = strings.ToLower(strings.TrimSpace(n))
+		if n == "host" || strings.HasPrefix(n, "x-amz-") || n == "content-md5" {
+			names = append(names, n)
+		}
+	}
+	sort.Strings(names)
+	names = c28Uniq(names)
+	var cb strings.Builder
+	for _, n := range names {
+		vals := w.header(n)
+		for i := range vals {
+			vals[i] = c28CollapseSpaces(vals[i])
+		}
+		cb.WriteString(n + ":" + strings.Join(vals, ",") + "\n")
+	}
+	canonURI := c28UriEncode(c28PctDecode(w.Path, false), false)
+	if canonURI == "" {
+		canonURI = "/"
+	}
+	cqs := c28CanonicalQueries(w.Query, false)
+	if len(cqs) == 0 {
+		return nil, false
+	}
+	list := strings.Join(names, ";")
+	cr := w.Method + "\n" + canonURI + "\n" + cqs[0] + "\n" + cb.String() + "\n" + list + "\n" + ph[0]
+	h := sha256.Sum256([]byte(cr))
+	sts := "AWS4-HMAC-SHA256\n" + d[0] + "\n" + strings.Join(cp[1:], "/") + "\n" + hex.EncodeToString(h[:])
+	sig := hex.EncodeToString(c30HMAC(c30SigningKey(c29Secret, cp[1], cp[2], cp[3]), sts))
+	out := w.clone()
+	out.setHeader("Authorization", "AWS4-HMAC-SHA256 Credential="+fields["Credential"]+", SignedHeaders="+list+", Signature="+sig)
+	return out, true
+}
